@@ -351,10 +351,11 @@ def case_photometry(ctx, band):
     _, astro = _mods()
     St.snap_literals = True
     m_, f_, k, t, ps = var("mag"), var("flux"), var("k"), var("t"), var("ps")
-    mask = symarr("mask", (2, 2))
+    mask = symarr("mask", (1, 2))
     pre = pos(f_, k, t, ps) + [z(e.re) >= 0 for e in mask.flat]
+    St.split_pre = list(pre)     # value-dependent branches in the code are decided under these (every obligation below that runs such code has them)
     ctx.encoded(astro.magnitude_to_flux, astro.flux_to_magnitude, astro.photons_per_band, astro.photons_per_mag)
-    ctx.bounds.update(band=band, mask="2x2 symbolic non-negative")
+    ctx.bounds.update(band=band, mask="1x2 symbolic non-negative (any transmission, not only 0/1)")
     ctx.assume("10**x and log10 uninterpreted; axioms log10(10^a)=a, 10^a>0, 10^(a+k)=10^a*10^k (k integer constant) instantiated on occurring terms")
     with npx.symbolic(astro):
         fl = astro.magnitude_to_flux(m_, band)
@@ -386,13 +387,14 @@ def case_photometry(ctx, band):
         ctx.prove("magnitude_to_flux(flux_to_magnitude(F)) = F", pre + ax2, all_eq(fb, f_),
                   replay=lambda mm: _replay_flux(band, mm(f_)), witness_terms=dict(flux=f_))
         # proportionality to exposure time and collecting area
+        rp_prop = lambda mm: _replay_prop(band, mm(m_), numpy.asarray(mm(mask), dtype=float), mm(ps), mm(t), mm(k))
         p1 = astro.photons_per_band(m_, mask, ps, t, band)
         p2 = astro.photons_per_band(m_, mask, ps, t * k, band)
-        ctx.prove("photons_per_band proportional to exposure time", pre, all_eq(p2, p1 * k), replay=lambda mm: (False, {}))
+        ctx.prove("photons_per_band proportional to exposure time", pre, all_eq(p2, p1 * k), replay=rp_prop)
         p3 = astro.photons_per_band(m_, mask * k, ps, t, band)
-        ctx.prove("photons_per_band proportional to collecting area (mask)", pre, all_eq(p3, p1 * k), replay=lambda mm: (False, {}))
+        ctx.prove("photons_per_band proportional to collecting area (mask)", pre, all_eq(p3, p1 * k), replay=rp_prop)
         p4 = astro.photons_per_band(m_, mask, ps * k, t, band)
-        ctx.prove("photons_per_band proportional to pixel area", pre, all_eq(p4, p1 * k * k), replay=lambda mm: (False, {}))
+        ctx.prove("photons_per_band proportional to pixel area", pre, all_eq(p4, p1 * k * k), replay=rp_prop)
         if band == "V":
             wb = var("wb")
             q1 = astro.photons_per_mag(m_, mask, ps, wb, t)
@@ -433,6 +435,28 @@ def _replay_5mag(band, m):
     _, astro = _mods()
     a, b = astro.magnitude_to_flux(m, band), astro.magnitude_to_flux(m + 5, band)
     return abs(a / b - 100.0) > 1e-7, dict(what="5 mag != factor 100", band=band, m=m, ratio=a / b)
+
+
+def _replay_prop(band, mag, mask, ps, t, k):
+    _, astro = _mods()
+    mask = numpy.abs(numpy.asarray(mask, dtype=float))
+    ps, t, k = abs(ps) + 1e-3, abs(t) + 1e-3, abs(k) + 1e-3
+    mag = min(max(float(mag), -5.0), 25.0)
+    bad = []
+    for msk in (mask, mask * 0.5 + 0.25, numpy.array([[0.5, 1.0]]) * (1 + mask)):
+        p = astro.photons_per_band(mag, msk, ps, t, band)
+        tol = 1e-9 * max(abs(p), 1e-300)
+        if abs(astro.photons_per_band(mag, msk, ps, t * k, band) - k * p) > tol * max(1, k):
+            bad.append("exposure time")
+        if abs(astro.photons_per_band(mag, msk * k, ps, t, band) - k * p) > tol * max(1, k):
+            bad.append("collecting area (mask scaled by %g, mask %s)" % (k, msk.tolist()))
+        if abs(astro.photons_per_band(mag, msk, ps * k, t, band) - k * k * p) > tol * max(1, k * k):
+            bad.append("pixel area")
+        # additivity of the collecting area: a mask of two pixels collects the sum of the two one-pixel masks
+        a = astro.photons_per_band(mag, msk * numpy.array([[1.0, 0.0]]), ps, t, band) + astro.photons_per_band(mag, msk * numpy.array([[0.0, 1.0]]), ps, t, band)
+        if abs(a - p) > tol:
+            bad.append("additivity over mask pixels")
+    return bool(bad), dict(what="photons_per_band not proportional to: %s" % ", ".join(sorted(set(bad))), band=band, mag=mag, mask=mask, ps=ps, t=t, k=k)
 
 
 def _replay_flux(band, f):
